@@ -2647,6 +2647,39 @@ func historicContextInputs(c *Ctx) {
 	if n == 0 {
 		c.OK("historic-context-inputs", c.P.Pos(root.Decl.Pos()), "GetTestHistoricVM and the Blockchain methods it calls consult no getter of the current state")
 	}
+	// The native caches of the historic DAO are initialised for the height whose state the DAO holds: the argument
+	// of initializeNativeCache is the height the state root was asked for (finding 91: the caches were initialised
+	// for the *next* height, so at a hardfork height natives expected settings that block has not written yet).
+	f := c.P.NewFuncCFG(root)
+	var rootArg, cacheArg ast.Expr
+	inspectNoLit(root.Decl.Body, func(x ast.Node) bool {
+		call, ok := x.(*ast.CallExpr)
+		if !ok || len(call.Args) == 0 {
+			return true
+		}
+		switch sym := f.calleeSym(call); {
+		case strings.HasSuffix(sym, ".GetStateRoot"):
+			rootArg = call.Args[0]
+		case strings.HasSuffix(sym, "(*Blockchain).initializeNativeCache"):
+			cacheArg = call.Args[0]
+		}
+		return true
+	})
+	switch {
+	case rootArg == nil || cacheArg == nil:
+		c.Lost("historic-context-inputs.cache-height", "GetTestHistoricVM no longer calls GetStateRoot and initializeNativeCache")
+	default:
+		rb, ro, ok1 := linearForm(f, rootArg, 0)
+		cb, co, ok2 := linearForm(f, cacheArg, 0)
+		switch {
+		case !ok1 || !ok2:
+			c.Unclassified("historic-context-inputs.cache-height", c.P.Pos(cacheArg.Pos()), "the height arguments of GetStateRoot / initializeNativeCache are not of the form base+constant")
+		case rb == cb && ro == co:
+			c.OK("historic-context-inputs.cache-height", c.P.Pos(cacheArg.Pos()), fmt.Sprintf("native caches are initialised for the height of the state the DAO holds (%s%+d)", rb, ro))
+		default:
+			c.Fail("historic-context-inputs.cache-height", c.P.Pos(cacheArg.Pos()), fmt.Sprintf("GetTestHistoricVM opens the state of height %s%+d and initialises the native caches over it for height %s%+d: at a hardfork height the natives (and native settings) that the block of that height introduces are taken for present, InitializeCache looks for records that block has not written yet and the historic invocation fails where the live node at that height answered", rb, ro, cb, co))
+		}
+	}
 }
 
 func ruleContextHeight(c *Ctx) {
